@@ -267,11 +267,15 @@ def ldata_reader(chk: Check, repo: Repo) -> None:
         "flags": f"CEMIFlags.from_knx({ctl})",
         "src_addr": f"IndividualAddress.from_knx({raw}[2:4])",
         "dst_addr": dst,
-        "tpci": f"TPCI.resolve(raw_tpci={raw}[7:][0], dst_is_group_address={grp}, dst_is_zero=not ({dst}).raw)",
+        "tpci": f"TPCI.resolve(dst_is_group_address={grp}, dst_is_zero=not ({dst}).raw, raw_tpci={raw}[7:][0])",
     }
 
     def itext(e: ast.AST) -> str:
-        return ast.unparse(inline_locals(fi.node, e, depth=8))
+        x = inline_locals(fi.node, e, depth=8)
+        for c_ in ast.walk(x):  # keyword arguments in a fixed order: their order in the source does not matter
+            if isinstance(c_, ast.Call) and all(k.arg is not None for k in c_.keywords):
+                c_.keywords.sort(key=lambda k: k.arg)
+        return ast.unparse(x)
     for c in ctor:
         kw = {k.arg: k.value for k in c.keywords}
         kind = "control" if isinstance(kw.get("payload"), ast.Constant) else "data"
